@@ -92,7 +92,7 @@ def _unpack(vc, with_gap):
             objs.append(M.Bf2BinLine(start_tt + page - lines[0][0] // 0x10000 * 0 - (lines[0][0] // 0x10000), 0,
                                      bytes([len(data) + 2]) + off.to_bytes(2, "big") + data, b"raw"))
         base = (lines[0][0] // 0x10000) * 0x10000
-        out = M.Bf3File.bf2_unpack_payload(objs)
+        res = vc.call(M.Bf3File.bf2_unpack_payload, objs)
         # expected: maximal contiguous runs, addresses relative to the first line's page
         runs = []
         for a, data in lines:
@@ -104,6 +104,13 @@ def _unpack(vc, with_gap):
         want = {}
         for a, d in runs:
             want[a] = d
+        if len(want) != len(runs):
+            # two runs start at the same address: representing them would lose one of them
+            vc.prove("two-runs-at-one-address=>rejected(no-line-lost)", res.raised(M.Bf3FileFormatError), repr(res.exc)
+                     if not res.returned else "accepted: %r" % {k: len(v) for k, v in res.value.items()})
+            return
+        vc.prove("returns", res.returned, repr(res.exc))
+        out = res.value if res.returned else {}
         vc.prove("extents=maximal-contiguous-runs(every-line-once)", dict(out) == want, "%r vs %r" % (
             {k: len(v) for k, v in out.items()}, {k: len(v) for k, v in want.items()}))
         return
@@ -119,7 +126,10 @@ def _unpack(vc, with_gap):
     # page base of the first line is the reference; its own offset is ABS(0) = OFF(0)
     if with_gap:
         c.add(ABS(gt) != ABS(gt - 1) + PLN(gt - 1))
-        c.add(ABS(gt) != ABS(0))
+        if with_gap == "same-start":
+            c.add(ABS(gt) == ABS(0))        # the second run starts where the first one started
+        else:
+            c.add(ABS(gt) != ABS(0))
 
     def contiguous(j):
         jj = core.toint(j)
@@ -160,6 +170,11 @@ def _unpack(vc, with_gap):
                        start_tagtype="keep"),
             inv=inv)
     out = vc.call(M.Bf3File.bf2_unpack_payload, lines)
+    if with_gap == "same-start":
+        vc.prove("two-runs-at-one-address=>rejected(no-line-lost)", out.raised(M.Bf3FileFormatError),
+                 repr(out.exc) if not out.returned else "accepted")
+        vc.cover("rejected")
+        return
     vc.prove("returns", out.returned, repr(out.exc))
     if not out.returned:
         return
@@ -181,6 +196,30 @@ def unpack_contiguous(vc):
 @proof("C13/bf2_unpack_payload[one-gap]", functions=[(MOD, "Bf3File.bf2_unpack_payload")], family=fam_lines(True))
 def unpack_gap(vc):
     _unpack(vc, True)
+
+
+def fam_same_start(seed, tier):
+    import random
+    rnd = random.Random(seed)
+    for n1, n2 in ((1, 1), (2, 1), (1, 3), (4, 4)):
+        for a0 in (0, 0x20, 0x10000 - 8):
+            lines, a = [], a0
+            for _ in range(n1):
+                d = bytes(rnd.randrange(256) for _ in range(4))
+                lines.append([a, d])
+                a += 4
+            a = a0
+            for _ in range(n2):
+                d = bytes(rnd.randrange(256) for _ in range(4))
+                lines.append([a, d])
+                a += 4
+            yield dict(lines=lines)
+
+
+@proof("C13/bf2_unpack_payload[second-run-at-the-same-address]", functions=[(MOD, "Bf3File.bf2_unpack_payload")],
+       family=fam_same_start)
+def unpack_same_start(vc):
+    _unpack(vc, "same-start")
 
 
 # ---------------------------------------------------------------------------------------
@@ -486,3 +525,38 @@ def exec_instrs(vc):
     vc.prove("filter-and-hw-id-tags", (desc.get(0xC9), desc.get(0xC4)) == ((bytes.fromhex("0101009B"), bytes.fromhex("009B")) if sel
                                                                          else (None, None)))
     vc.cover("executed")
+
+
+# ---------------------------------------------------------------------------------------
+# SELECT filter -> hardware id of a peripheral section.  Rule (bf3file.py): the three BGM12X filters of the table
+# PFID2FILTER_TO_HWCID_SPECIAL_CASES denote the BGM12X (both of its detuned/normal variants), any other single-id filter
+# "01 01 hh hh" denotes hh hh, everything else is rejected.  The table is pinned here (it is the only statement of these
+# special cases; the comparison is on BYTES, not on one particular hex spelling of them).
+
+FILTER_HWCID = [          # (filter hex, expected hardware id or None = rejected)
+    ("0101009B", 0x009B), ("010100AD", 0x00AD), ("010100BE", 0x00BE), ("01011234", 0x1234), ("0101ABCD", 0xABCD),
+    ("010100B6", "BGM12X"), ("010280B600BE", "BGM12X"), ("010280BE00B6", "BGM12X"),
+    ("010200B600BE", None), ("010280B6009B", None), ("0102809B00AD", None), ("01", None), ("0201009B", None),
+]
+
+
+@proof("C13/exec_bf2instrs.filter-to-hardware-id", functions=[(MOD, "Bf3File.exec_bf2instrs")],
+       family=lambda seed, tier: [dict(k=k) for k in range(len(FILTER_HWCID))])
+def filter_hwcid(vc):
+    M = vc.module(MOD)
+    H = vc.module("bec2format.hwcids")
+    k = vc.choice("k", list(range(len(FILTER_HWCID))))
+    flt, want = FILTER_HWCID[k]
+    if want == "BGM12X":
+        want = H.HWCID_MAP["BGM12X"]
+    for spelling in (flt, flt.lower(), " ".join(flt[i:i + 2] for i in range(0, len(flt), 2))):
+        desc = {0xC1: b"\x00", 0xC3: b"\x01"}
+        out = vc.call(M.Bf3File.exec_bf2instrs, {"SELECT": {"FILTER": spelling}}, desc, {})
+        if want is None:
+            vc.prove("unsupported-filter-of-a-peripheral=>rejected", out.raised(M.Bf3FileFormatError, ValueError), repr(out.exc))
+        else:
+            vc.prove("filter-tag=the-filter-bytes", out.returned and desc.get(0xC9) == bytes.fromhex(flt), repr(out.exc))
+            vc.prove("hardware-id-of-the-filter", out.returned and desc.get(0xC4) == want.to_bytes(2, "big"),
+                     "%r" % (desc.get(0xC4),))
+    vc.ground("BGM12X-id-as-published", H.HWCID_MAP["BGM12X"] == 0xBE and H.HWCID_MAP.get("BGM12X_DETUNED") == 0xB6)
+    vc.cover("filters")
